@@ -286,8 +286,12 @@ func nativeRun(j JobDef, cases []replayCase) ([]replayResult, string, error) {
 	outp := filepath.Join(scratch, "out.json")
 	cmd := exec.Command("go", "test", "-vet=off", "-count=1", "-timeout", "120s", "-overlay", ovp, "-run", "^TestVerifReplay$", j.Pkg)
 	cmd.Dir = repoDir()
+	// glog of the test binary writes its files to the temp dir: keep them in
+	// the scratch directory, which is removed when the run is over
+	tmpd := filepath.Join(scratch, "tmp")
+	os.MkdirAll(tmpd, 0o755)
 	cmd.Env = append(os.Environ(), "GOFLAGS=-mod=mod", "GOPROXY=off", "GOSUMDB=off", "GOTOOLCHAIN=local",
-		"VERIF_REPLAY="+cp, "VERIF_REPLAY_OUT="+outp)
+		"VERIF_REPLAY="+cp, "VERIF_REPLAY_OUT="+outp, "TMPDIR="+tmpd)
 	out, runErr := cmd.CombinedOutput()
 	raw, err := os.ReadFile(outp)
 	if err != nil {
@@ -449,6 +453,18 @@ func cmdCheck(args []string) int {
 		if lg := os.Getenv("VERIF_SMTLOG"); lg != "" {
 			cfg.SMTLog = lg
 		}
+		// self-test knobs: validate many more paths against the native
+		// build than the default 3 per job (VERIF_SAMPLES per worker from
+		// the start of its share, VERIF_SAMPLE_EVERY: every n-th path)
+		maxSample := 3
+		if n, err := strconv.Atoi(os.Getenv("VERIF_SAMPLES")); err == nil && n > 0 {
+			cfg.Samples = n
+			maxSample = n * workers
+		}
+		if n, err := strconv.Atoi(os.Getenv("VERIF_SAMPLE_EVERY")); err == nil && n > 0 {
+			cfg.SampleEvery = n
+			maxSample = 1 << 30
+		}
 		t1 := time.Now()
 		st := RunJob(l.prog, fn, []*ssa.Function{pkg.Func("init")}, cfg)
 		wall := time.Since(t1).Seconds()
@@ -496,7 +512,7 @@ func cmdCheck(args []string) int {
 		}
 		nSample := 0
 		for _, s := range st.Samples {
-			if nSample >= 3 {
+			if nSample >= maxSample {
 				break
 			}
 			in := s["inputs"].([]InputRec)
@@ -543,6 +559,9 @@ func cmdCheck(args []string) int {
 						ccfg.Concrete = vec
 						ccfg.Workers = 1
 						ccfg.Samples = 0
+						ccfg.SampleEvery = 0
+						// its own budget: the job's deadline may have passed while later jobs ran
+						ccfg.Deadline = time.Now().Add(2 * time.Minute)
 						cst := RunJob(l.prog, fn, []*ssa.Function{pkg.Func("init")}, ccfg)
 						var eobs []string
 						if len(cst.Observed) > 0 {
@@ -557,7 +576,7 @@ func cmdCheck(args []string) int {
 						engineOK := len(cst.Viol) == 0 && cst.Paths == 1
 						nativeOK := r.Status == "ok"
 						if engineOK != nativeOK || strings.Join(eobs, "\n") != strings.Join(nobs, "\n") {
-							out.inconclusive = append(out.inconclusive, fmt.Sprintf("%s: translator validation mismatch on %s: engine ok=%v obs=%v / native status=%s obs=%v", j.Name, describeInputs(cases[i].Inputs), engineOK, eobs, r.Status, nobs))
+							out.inconclusive = append(out.inconclusive, fmt.Sprintf("%s: translator validation mismatch on %s: engine ok=%v%s obs=%v / native status=%s obs=%v", j.Name, describeInputs(cases[i].Inputs), engineOK, engineWhy(cst), eobs, r.Status, nobs))
 						} else {
 							validated++
 							rep.Validated++
@@ -677,6 +696,25 @@ func cmdCheck(args []string) int {
 	}
 	fmt.Printf("[%s] %s: held on everything explored (%d paths, %d queries, %.1fs)\n", id, tier, total.Paths, total.Queries, time.Since(t0).Seconds())
 	return 0
+}
+
+// engineWhy says why a concrete engine run did not end as one clean path.
+func engineWhy(st *Stats) string {
+	if len(st.Viol) == 0 && st.Paths == 1 {
+		return ""
+	}
+	s := fmt.Sprintf(" (paths=%d aborted=%d", st.Paths, st.Aborted)
+	for i, v := range st.Viol {
+		if i < 3 {
+			s += " viol:" + v.ID + ":" + v.Msg
+		}
+	}
+	for i, w := range st.Incon {
+		if i < 3 {
+			s += " incon:" + w
+		}
+	}
+	return s + ")"
 }
 
 func nativeViolates(r replayResult) bool {
